@@ -213,11 +213,15 @@ theorem classify_many (k t a nullTy vs) (h : classify k t a nullTy = .ok (.many 
       split at h
       · split at h
         · split at h
-          · split at h <;> simp at h
-          all_goals simp at h
+          · simp at h
+          · split at h
+            · split at h <;> simp at h
+            all_goals simp at h
         · split at h <;> simp at h
       · split at h
-        · split at h <;> simp at h
+        · split at h
+          · simp at h
+          · split at h <;> simp at h
         · split at h <;> simp at h
       · simp at h
       · split at h <;> simp at h
@@ -234,10 +238,12 @@ theorem mixElem_one (t a nullTy v) (h : mixElem t a nullTy = .ok (.one v)) :
     split at h
     · rename_i ha
       split at h
+      · simp at h; exact ⟨hm, Or.inl (by simpa using ha), Or.inr h.symm⟩
       · split at h
-        · simp at h; exact ⟨hm, Or.inl (by simpa using ha), Or.inl ⟨_, h.symm⟩⟩
+        · split at h
+          · simp at h; exact ⟨hm, Or.inl (by simpa using ha), Or.inl ⟨_, h.symm⟩⟩
+          all_goals simp at h
         all_goals simp at h
-      all_goals simp at h
     · split at h
       · rename_i ha
         simp at h; exact ⟨hm, Or.inr (by simpa using ha), Or.inr h.symm⟩
@@ -247,8 +253,10 @@ theorem mixElem_one (t a nullTy v) (h : mixElem t a nullTy = .ok (.one v)) :
     split at h
     · rename_i ha
       split at h
-      · simp at h; exact ⟨hm, Or.inl (by simpa using ha), Or.inl ⟨_, h.symm⟩⟩
-      all_goals simp at h
+      · simp at h; exact ⟨hm, Or.inl (by simpa using ha), Or.inr h.symm⟩
+      · split at h
+        · simp at h; exact ⟨hm, Or.inl (by simpa using ha), Or.inl ⟨_, h.symm⟩⟩
+        all_goals simp at h
     · split at h
       · rename_i ha
         simp at h; exact ⟨hm, Or.inr (by simpa using ha), Or.inr h.symm⟩
@@ -261,6 +269,171 @@ theorem mixElem_one (t a nullTy v) (h : mixElem t a nullTy = .ok (.one v)) :
       simp at h
       exact ⟨h1, h2, h3, by simpa using ha, h.symm⟩
     · simp at h
+
+/-! ### the type-mixing branch after the repair 9e8652f: typed nulls, no hazard -/
+
+/-- the two numeric majors, crossed: an integer container given a decimal, a decimal container given an
+integer -/
+def crossNum (tm am : Major) : Bool := (tm == .int && am == .num) || (tm == .num && am == .int)
+
+/-- the null the type-mixing branch stores for a container of major `m`: `Value(Value::type_integer)` /
+`Value(Value::type_numeric)` -/
+def numNull (m : Major) : Val := .null { major := m }
+
+/-- for a table of ONE dimension (and for a tuple item) that null has exactly the element type -/
+theorem numNull_elem_type (t : Ty) (hl : t.level = 1) (hm : t.minor = 0) : (numNull t.major).type = t.levelDown := by
+  cases t with
+  | mk major minor level =>
+    simp at hl hm; subst hl; subst hm
+    simp [numNull, Val.type, Ty.levelDown]
+
+theorem mixElem_null_cross (t nt nullTy : Ty) (hc : crossNum t.major nt.major = true) :
+    mixElem t (.null nt) nullTy = .ok (.one (numNull t.major)) := by
+  unfold crossNum at hc
+  simp only [Bool.or_eq_true, Bool.and_eq_true, beq_iff_eq] at hc
+  unfold mixElem
+  rcases hc with ⟨h1, h2⟩ | ⟨h1, h2⟩
+  · rw [h1]; simp [Val.type, h2, Val.isNull, numNull, Ty.int]
+  · rw [h1]; simp [Val.type, h2, Val.isNull, numNull, Ty.num]
+
+theorem mixItem_null_cross (dt nt oldTy : Ty) (hc : crossNum dt.major nt.major = true) :
+    mixItem dt (.null nt) oldTy = .ok (some (numNull dt.major)) := by
+  unfold crossNum at hc
+  simp only [Bool.or_eq_true, Bool.and_eq_true, beq_iff_eq] at hc
+  unfold mixItem
+  rcases hc with ⟨h1, h2⟩ | ⟨h1, h2⟩
+  · rw [h1]; simp [Val.type, h2, Val.isNull, numNull, Ty.int]
+  · rw [h1]; simp [Val.type, h2, Val.isNull, numNull, Ty.num]
+
+/-- a scalar typed null of the other numeric type reaches the mixing branch and is stored as the null of
+the container's major — whatever the method and whatever the level of the table -/
+theorem classify_null_cross (k : Kind) (t nt nullTy : Ty) (hc : crossNum t.major nt.major = true) (hl : nt.level = 0) :
+    classify k t (.null nt) nullTy = .ok (.one (numNull t.major)) := by
+  have hne : nt.major ≠ t.major := by
+    unfold crossNum at hc
+    simp only [Bool.or_eq_true, Bool.and_eq_true, beq_iff_eq] at hc
+    rcases hc with ⟨h1, h2⟩ | ⟨h1, h2⟩ <;> rw [h1, h2] <;> simp
+  unfold classify
+  simp [Val.type, hl, hne, mixElem_null_cross t nt nullTy hc]
+
+/-- not a malformed table: a `Collection` always carries a table type (level ≥ 1) -/
+def WfArg (a : Val) : Prop := ∀ t d es, a = .tab t d es → t.level ≠ 0
+
+theorem nonnull_num (a : Val) (hw : WfArg a) (hn : a.isNull = false) (hm : a.type.major = .num)
+    (hl : a.type.level = 0) : ∃ x, a = .num x := by
+  cases a with
+  | num x => exact ⟨x, rfl⟩
+  | null ty => simp [Val.isNull] at hn
+  | tup d items => simp [Val.type, makeTupleTy_major] at hm
+  | tab t d es => exact absurd hl (hw t d es rfl)
+  | _ => simp [Val.type, Ty.bool, Ty.int, Ty.imag, Ty.str, Ty.raw] at hm
+
+theorem nonnull_int (a : Val) (hw : WfArg a) (hn : a.isNull = false) (hm : a.type.major = .int)
+    (hl : a.type.level = 0) : ∃ x, a = .int x := by
+  cases a with
+  | int x => exact ⟨x, rfl⟩
+  | null ty => simp [Val.isNull] at hn
+  | tup d items => simp [Val.type, makeTupleTy_major] at hm
+  | tab t d es => exact absurd hl (hw t d es rfl)
+  | _ => simp [Val.type, Ty.bool, Ty.num, Ty.imag, Ty.str, Ty.raw] at hm
+
+/-- `Value::toInteger`: the range test lets no infinity or NaN through to the cast -/
+theorem intOfDecimal_not_haz (b : Num.F64) (h : Hazard) : Num.intOfDecimal b ≠ .haz h := by
+  unfold Num.intOfDecimal
+  simp only
+  split
+  · simp
+  · rename_i hr
+    have he : Num.expo b ≠ 2047 := by
+      intro e
+      apply hr
+      by_cases hm : Num.mant b = 0
+      · have hc : (b == 0xc3e0000000000000) = false := by
+          apply beq_eq_false_iff_ne.mpr
+          intro eb; subst eb; revert e; decide
+        simp [Num.isNaN, e, hm, hc]
+      · simp [Num.isNaN, e, hm]
+    have : Num.truncInt b ≠ none := by
+      unfold Num.truncInt
+      simp [he]
+    split
+    · simp
+    · rename_i hn; exact absurd hn this
+
+/-- **no hazard is left in the type-mixing branch** of put / insert / concat (9e8652f): for every table
+type and every level-0 argument the outcome is a slot, a refusal or OUT_OF_RANGE. -/
+theorem mixElem_no_hazard (t : Ty) (a : Val) (nullTy : Ty) (hw : WfArg a) (hl : a.type.level = 0) :
+    (mixElem t a nullTy).isHazard = false := by
+  unfold mixElem
+  split
+  · split
+    · rename_i hm
+      split
+      · rfl
+      · rename_i hn
+        obtain ⟨x, rfl⟩ := nonnull_num a hw (by simpa using hn) (by simpa using hm) hl
+        have e : (Val.num x).asNum = .ok x := rfl
+        rw [e]
+        cases hi : Num.intOfDecimal x with
+        | haz h => exact absurd hi (intOfDecimal_not_haz x h)
+        | _ => simp [hi, Res.isHazard]
+    · split <;> rfl
+  · split
+    · rename_i hm
+      split
+      · rfl
+      · rename_i hn
+        obtain ⟨x, rfl⟩ := nonnull_int a hw (by simpa using hn) (by simpa using hm) hl
+        rfl
+    · split <;> rfl
+  · rfl
+  · split <;> rfl
+
+/-- the same for `set@` -/
+theorem mixItem_no_hazard (dt : Ty) (a : Val) (oldTy : Ty) (hw : WfArg a) (hl : a.type.level = 0) :
+    (mixItem dt a oldTy).isHazard = false := by
+  unfold mixItem
+  split
+  · split
+    · rename_i hm
+      split
+      · rfl
+      · rename_i hn
+        obtain ⟨x, rfl⟩ := nonnull_num a hw (by simpa using hn) (by simpa using hm) hl
+        have e : (Val.num x).asNum = .ok x := rfl
+        rw [e]
+        cases hi : Num.intOfDecimal x with
+        | haz h => exact absurd hi (intOfDecimal_not_haz x h)
+        | _ => simp [hi, Res.isHazard]
+    · split <;> rfl
+  · split
+    · rename_i hm
+      split
+      · rfl
+      · rename_i hn
+        obtain ⟨x, rfl⟩ := nonnull_int a hw (by simpa using hn) (by simpa using hm) hl
+        rfl
+    · split <;> rfl
+  · split <;> rfl
+
+/-- the whole classification of an element argument reaches no hazard -/
+theorem classify_no_hazard (k : Kind) (t : Ty) (a : Val) (nullTy : Ty) (hw : WfArg a) :
+    (classify k t a nullTy).isHazard = false := by
+  unfold classify
+  split
+  · split
+    · split
+      · rfl
+      · split <;> rfl
+    · rfl
+  · rename_i hl
+    split
+    · split
+      · split
+        · rfl
+        · split <;> rfl
+      · split <;> rfl
+    · exact mixElem_no_hazard t a nullTy hw (by omega)
 
 /-- a value whose *implementation* type equals the element type of a table has the element type
 of the Spec, provided declarations hash injectively -/
@@ -817,6 +990,15 @@ theorem listPut_self {α} (l : List α) (n : Nat) (y : α) (h : l[n]? = some y) 
     | zero => simp at h; simp [h]
     | succ k => simp at h; simpa using ih k h
 
+theorem listPut_eq_set {α} (l : List α) (n : Nat) (x : α) (h : n < l.length) : listPut l n x = l.set n x := by
+  unfold listPut
+  induction l generalizing n with
+  | nil => simp at h
+  | cons y ys ih =>
+    cases n with
+    | zero => simp
+    | succ k => simp at h; simp [ih k h]
+
 theorem length_listPut {α} (l : List α) (n : Nat) (y : α) (h : n < l.length) : (listPut l n y).length = l.length := by
   unfold listPut; simp; omega
 
@@ -852,10 +1034,12 @@ theorem mixItem_some (dt a oldTy v) (h : mixItem dt a oldTy = .ok (some v)) :
     left
     split at h
     · split at h
+      · simp at h; exact ⟨hm, Or.inr h.symm⟩
       · split at h
-        · simp at h; exact ⟨hm, Or.inl ⟨_, h.symm⟩⟩
+        · split at h
+          · simp at h; exact ⟨hm, Or.inl ⟨_, h.symm⟩⟩
+          all_goals simp at h
         all_goals simp at h
-      all_goals simp at h
     · split at h
       · simp at h; exact ⟨hm, Or.inr h.symm⟩
       · simp at h
@@ -863,8 +1047,10 @@ theorem mixItem_some (dt a oldTy v) (h : mixItem dt a oldTy = .ok (some v)) :
     right; left
     split at h
     · split at h
-      · simp at h; exact ⟨hm, Or.inl ⟨_, h.symm⟩⟩
-      all_goals simp at h
+      · simp at h; exact ⟨hm, Or.inr h.symm⟩
+      · split at h
+        · simp at h; exact ⟨hm, Or.inl ⟨_, h.symm⟩⟩
+        all_goals simp at h
     · split at h
       · simp at h; exact ⟨hm, Or.inr h.symm⟩
       · simp at h
